@@ -310,7 +310,18 @@ func (st *runState) client(sim *simrt.Sim, sys *System, ci int, c Client) {
 			}
 		}
 		st.mu.Unlock()
-		body := &fragReader{data: w.Body, frag: op.Frag, stall: time.Duration(op.StallUs) * time.Microsecond}
+		frag := op.Frag
+		if len(w.Body) > 1<<20 {
+			// megabytes delivered a few bytes per read cost minutes of wall clock and show nothing a kilobyte does not
+			frag = nil
+			for _, f := range op.Frag {
+				if f < 1000 {
+					f = 70000
+				}
+				frag = append(frag, f)
+			}
+		}
+		body := &fragReader{data: w.Body, frag: frag, stall: time.Duration(op.StallUs) * time.Microsecond}
 		ctx, cancel := context.WithCancel(context.Background())
 		req := httptest.NewRequest("POST", w.Path, body).WithContext(ctx)
 		req.Header.Set("Content-Type", w.ContentType)
